@@ -2,6 +2,7 @@ import HapModel.Drv.C01
 import HapModel.Drv.C03
 import HapModel.Drv.C04
 import HapModel.Drv.C05
+import HapModel.Drv.C06
 import HapModel.Drv.C12
 import HapModel.Drv.C13
 import HapModel.Drv.C14
@@ -28,6 +29,7 @@ def dispatch1 (op : String) (j : Json) : R Json :=
   | "validate" => hValidate j
   | "outputVcf" => hOutputVcf j
   | "transform" => hTransform j
+  | "hapParse" => hHapParse j
   | _ => throw s!"unknown op {op}"
 
 /-- {"op":"batch","reqs":[…]} → {"resps":[…]} -/
